@@ -311,6 +311,24 @@ pub fn session(_seed: u64) -> usize {
             found += 1;
         }
     }
+    // C10: the tag of an issued cookie is HMAC-SHA256 under exactly the configured secret (checked independently), for secrets
+    // shorter than, equal to and longer than the 64-byte block of SHA-256
+    for n in [1usize, 6, 63, 64, 65, 96, 200] {
+        use hmac::{Hmac, Mac};
+        let long: Vec<u8> = (0..n).map(|i| (i * 11 + 5) as u8).collect();
+        let t = rt.block_on(run(Scenario { secret: Some(long.clone()), targets: vec![target("10.0.0.7:25570", "lobby-1")], ..Default::default() }));
+        match t.stored.iter().find(|(k, _)| k == AUTH_COOKIE_KEY) {
+            Some((_, payload)) if payload.len() > 32 => {
+                let mut mac = Hmac::<sha2::Sha256>::new_from_slice(&long).expect("hmac key");
+                mac.update(&payload[32..]);
+                if mac.finalize().into_bytes().as_slice() != &payload[..32] {
+                    println!("REPRODUCED session the tag of the auth cookie issued under a {n}-byte secret is not HMAC-SHA256(secret, cookie)");
+                    found += 1;
+                }
+            }
+            _ => { println!("REPRODUCED session no auth cookie was issued under a {n}-byte secret"); found += 1; }
+        }
+    }
     // C10: no secret, no auth cookie
     let t = rt.block_on(run(Scenario { targets: vec![target("10.0.0.7:25570", "lobby-1")], ..Default::default() }));
     if t.stored.iter().any(|(k, _)| k == AUTH_COOKIE_KEY) { println!("REPRODUCED session auth cookie issued without a configured secret"); found += 1; }
